@@ -25,6 +25,16 @@ def journal_cfg():
     def connect(I, a, k):
         db = I.ctx.ghost["db"]
         I.ctx.ghost["connect_arg"] = a[0] if a else None
+        for kw, v in k.items():
+            if kw == "isolation_level":
+                if v is None:
+                    db.autocommit = True  # every statement durable on its own, commit() is a no-op
+                elif v not in ("", "DEFERRED", "IMMEDIATE", "EXCLUSIVE"):
+                    raise Outside("sqlite3.connect isolation_level " + repr(v))
+            elif kw not in ("timeout", "check_same_thread", "cached_statements"):
+                raise Outside("sqlite3.connect keyword " + kw)
+        if len(a) > 1:
+            raise Outside("sqlite3.connect positional options")
         return sm.SqlConn(db)
     cfg.externs["sqlite3.connect"] = connect
     return cfg
